@@ -812,5 +812,43 @@ func serviceMonitor(r *vkit.Run) {
 			idx++
 		}
 	}
+	pipelineBoundService(r, tlsServer)
 	pipelineTimeoutService(r, tlsClient, tlsServer)
 }
+
+// pipelineBoundService: the pipeline bound on every stream listener that
+// dnssvc builds (production wiring of the server's TCP configuration): a gated
+// handler counts concurrent invocations per connection, one connection sends
+// limit+4 .. limit+12 queries, the peak must not exceed the configured count.
+func pipelineBoundService(r *vkit.Run, tlsServer *tls.Config) {
+	limits := []uint{2}
+	if r.Thorough() {
+		limits = []uint{1, 2, 5}
+	}
+	idx := 0
+	for _, n := range limits {
+		h := &pipeHandler{}
+		h.reset()
+		svc, ls, err := buildService(len5+2, len5+1, tlsServer, svcOpts{pipeline: n, handler: h})
+		if err != nil {
+			r.Inconclusive(fmt.Sprintf("service-pipeline: cannot build/start dnssvc: %v", err))
+			return
+		}
+		for _, l := range ls {
+			rng := r.Rand("service-pipeline", idx)
+			proto := "tcp"
+			if l.tls {
+				proto = "tls"
+			}
+			pipelineCase(r, "service-pipeline", idx, proto, int(n), l.Addr, h, []int{int(n) + 4 + rng.IntN(9)}, rng.IntN(2) == 0)
+			r.Bucket("service-pipeline_listeners_"+l.Proto+"_"+l.Flavour, 1)
+			idx++
+		}
+		time.Sleep(20 * time.Millisecond)
+		ctx, cancel := context.WithTimeout(context.Background(), 20*time.Second)
+		_ = svc.Shutdown(ctx)
+		cancel()
+	}
+}
+
+const len5 = 5 // stream listeners of the full service shape
